@@ -493,10 +493,10 @@ impl EditConfig {
 
         let zip_iter = rpus.iter_mut().filter_map(|e| e.as_mut()).zip(source_rpus);
 
-        let levels = self
-            .rpu_levels
-            .as_ref()
-            .expect("Levels to replace must be present");
+        let levels = match self.rpu_levels.as_ref() {
+            Some(levels) => levels,
+            None => bail!("Levels to replace must be present"),
+        };
 
         for (dst_rpu, src_rpu) in zip_iter {
             dst_rpu.replace_levels_from_rpu(src_rpu, levels)?;
